@@ -1,9 +1,13 @@
 """C17 -- the command line writes exactly the assembled program, or nothing on failure.
 Theorems: coq/Props/C17.v, proved by symbolic execution of Model.Cli.run_cli on the step list GENERATED from the AST of
 asm.cli_main (Gen/Cli.v), for any assembler that may fail.
-Correspondence: real CLI runs (subprocess) vs the model on the same options / files / working directory, the model's
-assembler being the observed in-process result of asm.assemble and its bin2hex the hex text the real run wrote
-(after that text passed the Spec decoder).
+The HEX half is a theorem too: Model.HexWriter.bin2hex_model (the third-party intelhex.bin2hex: 16-byte records counted
+from the offset, cut at 64 KiB lines, type-04 records, checksums, EOF record) round-trips through the independent decoder
+Spec.Hex.hex_decode for all bytes and every offset with offset + len <= 2^32 (C17_hex_roundtrip), and the CLI theorems are
+restated with that writer in place of the bin2hex parameter (C17_success_hex, C17_no_clobber_hex).
+Correspondence: (a) real CLI runs (subprocess) vs the model on the same options / files / working directory, the model's
+assembler being the observed in-process result of asm.assemble and its bin2hex the writer model; (b) intelhex.bin2hex vs
+Model.HexWriter.bin2hex_model on generated (bytes, offset) pairs (tools/hexwriter_engine.py), text for text.
 Falsifier (property on the REAL code): on every run, exit 0 => -o = assembled bytes, -l = one "name 0x%08x" line per
 label, .hex decodes (Coq Spec.Hex decoder) to the bytes at the offset; exit != 0 => every previously existing
 -o / -l / .hex file is untouched."""
@@ -12,28 +16,39 @@ import os
 import harness
 import files_engine as fe
 import cli_engine as ce
+import hexwriter_engine as hw
 
 GEN_UNITS = ['Cli']
 EXES = []
 ASSUMPTIONS = [
-    'intelhex.bin2hex(offset, bytes) writes a file that Spec.Hex.hex_decode maps back to the bytes at the offset whenever '
-    '0 <= offset and offset + len <= 2^32 (checked at run time on every hex file the real CLI produced)',
+    'intelhex.bin2hex is the installed third-party package (2.3.0), modelled by Model.HexWriter.bin2hex_model for 0 <= offset, '
+    'offset + len <= 2^32 (the range cli_main lets through); the general theorems C17_success / C17_no_clobber still take '
+    'bin2hex as a parameter with the round-trip hypothesis, C17_success_hex / C17_no_clobber_hex need no hypothesis about it',
     'the three output paths name three different files (hypothesis distinct_outputs of C17_success)',
     'environment faults are out of scope: missing / unwritable output directory, full disk, kill -9 between two writes; '
     'the model\'s open(..., "w") always succeeds',
     'argparse is not modelled (o_argv_ok says whether it accepts the command line); -h is not exercised',
 ]
-TRUSTED_EXTRA = ['tools/units_cli.py (literal shapes of the statements of cli_main -> step kinds; AST-derived may_fail / writes tags)']
+TRUSTED_EXTRA = ['tools/units_cli.py (literal shapes of the statements of cli_main -> step kinds; AST-derived may_fail / writes tags)',
+                 'coq/Model/HexWriter.v (hand-written model of intelhex.bin2hex, tied by the text-for-text correspondence)']
 CLAIM = dict(
     text=('C17_no_clobber (exit != 0 => the whole file system is unchanged), C17_success (exit 0 => assemble succeeded on the '
           'untouched files with exactly the given options, -o = its bytes, -l = one "name 0x%08x" line per label in table order, '
           '.hex decodes with the independent Spec decoder to the bytes at the offset), C17_nothing_else (no other path is ever '
-          'touched) -- proved for EVERY assembler function (a failure in any pass is just "it raises"), every option record, '
+          'touched), C17_hex_roundtrip (the model of intelhex.bin2hex -- 16-byte records from the offset, cut at 64 KiB lines, '
+          'type-04 records, checksums, EOF -- decodes with the independent Spec decoder to exactly the bytes at the offset, for all '
+          'bytes and 0 <= offset, offset + len <= 2^32, empty file and offset + len = 2^32 included), C17_success_hex / '
+          'C17_no_clobber_hex (the same CLI theorems with that writer in place of the bin2hex parameter: no hypothesis about '
+          'bin2hex, the .hex file holds exactly bin2hex_model(binary, offset), and that needs no aliasing hypothesis) '
+          '-- proved for EVERY assembler function (a failure in any pass is just "it raises"), every option record, '
           'working directory and file system, by symbolic execution of the interpreter Model.Cli.run_cli on the step list '
           'regenerated from the AST of asm.cli_main on every run; tie: translator (fail closed, literal statement shapes, tags '
-          'cross-checked by cli_tags_ok) + real CLI subprocess runs vs the model; falsifier: direct evaluation on real runs with '
+          'cross-checked by cli_tags_ok) + real CLI subprocess runs vs the model (its bin2hex = the writer model, .hex compared byte '
+          'for byte) + intelhex.bin2hex vs the writer model text for text on 500+ generated (bytes, offset) pairs (empty, 1..100 '
+          'bytes, offsets around every kind of 64 KiB line, up to offset + len = 2^32, files longer than 64 KiB); falsifier: direct evaluation on real runs with '
           'sentinel files, failures in 16 places of the assembler, valid / invalid / out-of-range hex offsets, 3 working directories'),
-    note=('bin2hex is a hypothesis (round trip for the run at hand), validated per produced file with Spec.Hex; environment '
+    note=('the writer is the hand-written model of the third-party intelhex 2.3.0 (trusted through the correspondence; every hex '
+          'file a real run produced is also decoded with Spec.Hex); environment '
           'faults (unwritable directory, disk full, kill -9) and argparse itself are not modelled; aliasing of -o / -l / .hex '
           'is excluded by hypothesis'),
     technique='Coq theorems by symbolic execution of a generated step list + subprocess correspondence + direct falsifier',
@@ -47,7 +62,11 @@ def explore(ctx):
                 'strings, include_bytes, raw unpack) x option combinations, 6 successful programs x {-c} x 20 hex-offset '
                 'spellings (valid, malformed, negative, beyond 2^32), default / absolute / nested output paths, bad -i, missing '
                 'input, --version, unknown option, --include-definitions, absent old files, 3 working directories; '
-                'non-trivial = distinct (program, options, cwd) whose run has old output files present')
+                'non-trivial = distinct (program, options, cwd) whose run has old output files present; '
+                'writer: intelhex.bin2hex vs Model.HexWriter.bin2hex_model on (bytes, offset) pairs -- lengths 0, 1, 2, 3, 15, 16, '
+                '17, 31, 32, 33, 48, 100 x small offsets (aligned and not), offsets -33 .. +17 around k * 0x10000 for 11+ values of '
+                'k up to 0xFFFF, files ending at 0xFFFE / 0xFFFF / 0x10000 / 0x10001, offset + len = 2^32 - {0, 1, 2, 16}, random '
+                'offsets, files of 700 / 5000 / 65576 bytes (two 64 KiB lines crossed); non-trivial = distinct (offset, length > 0)')
     cases = ce.generate(ctx.rng, ctx.quick())
     runs = ce.run_all(asm, cases)
     # Spec-decode every hex file a successful run wrote
@@ -64,16 +83,11 @@ def explore(ctx):
         hexdec = decoded.get(i)
         for what, obs, expd, match in ce.evaluate(r, hexdec):
             ctx.cex('{}: {}'.format(c.name, what), {'kind': 'cli', 'case': c.to_json()}, obs, expd, match)
-        # hypothesis check: a produced hex file must be what the Spec decoder maps back
-        hex_ok = False
         if i in decoded and r['exp'][0] != 'FAIL':
-            off = ce.parse_offset(c.opts['hex'])
-            if off is not None and 0 <= off and off + len(r['exp'][0]) <= 2 ** 32:
-                ctx.count('bin2hex-roundtrip-checked')
-                hex_ok = hexdec == [(off + k, b) for k, b in enumerate(r['exp'][0])]
-        terms.append(ce.model_term(r, hex_ok))
+            ctx.count('real-hex-file-spec-decoded')
+        terms.append(ce.model_term(r))
         idx.append(i)
-    answers = fe.run_terms('Base.PyBase Gen.Cli Model.Reader Model.Cli', terms, shard=12)
+    answers = fe.run_terms('Base.PyBase Gen.Cli Model.Reader Model.Cli Model.HexWriter', terms, shard=12)
     for i, a in zip(idx, answers):
         r = runs[i]
         m = ce.parse_model(a)
@@ -87,6 +101,7 @@ def explore(ctx):
             def short(d):
                 return {k: (v[:40].hex() + '..' if isinstance(v, bytes) else v) for k, v in d.items()}
             ctx.corr('Model.Cli.run_cli', {'case': r['case'].to_json()}, short(real), short(m))
+    writer_correspondence(ctx)
     ok = [r for r in runs if r['rc'] == 0]
     if ok:
         ctx.sample({'argv': ok[0]['case'].argv, 'cwd': ok[0]['case'].cwd_rel, 'exit': 0, 'out': ok[0]['after']['output'][:32].hex()})
@@ -95,7 +110,40 @@ def explore(ctx):
         ctx.sample({'argv': bad[0]['case'].argv, 'cwd': bad[0]['case'].cwd_rel, 'exit': bad[0]['rc'], 'stderr': bad[0]['stderr'][-120:]})
 
 
+def writer_correspondence(ctx):
+    """intelhex.bin2hex vs Model.HexWriter.bin2hex_model, text for text; and the REAL text through the Spec decoder
+    (what C17_hex_roundtrip proves of the model's text)"""
+    pairs = hw.generate(ctx.rng, ctx.quick())
+    real = hw.real_bin2hex(pairs)
+    model = hw.model_bin2hex(pairs)
+    short = [i for i, (b, _) in enumerate(pairs) if len(b) <= hw.LONG and isinstance(real[i], bytes)]
+    decoded = dict(zip(short, fe.spec_hex_decode([real[i] for i in short])))
+    for i, (b, off) in enumerate(pairs):
+        ctx.evaluations += 1
+        inp = {'kind': 'bin2hex', 'offset': off, 'bytes': b[:64].hex() + ('..' if len(b) > 64 else ''), 'len': len(b)}
+        if isinstance(real[i], bytes):
+            ctx.count('hexwriter-' + ('long' if len(b) > hw.LONG else hw.shape(real[i]).replace(' ', '-')))
+            if b:
+                ctx.nontriv(('bin2hex', off, len(b)))
+        if model[i] is None:
+            ctx.corr('Model.HexWriter.bin2hex_model (evaluation failed)', inp, None, None)
+            continue
+        ctx.traces_validated += 1
+        if not hw.agree(real[i], model[i]):
+            def show(x):
+                return x.decode('ascii', 'replace')[:400] if isinstance(x, bytes) else repr(x)
+            ctx.corr('Model.HexWriter.bin2hex_model', inp, show(real[i]), show(model[i]))
+        if i in decoded and decoded[i] != hw.expected_placement(b, off):
+            ctx.cex('intelhex.bin2hex wrote a file that does not decode to the bytes at the offset', inp,
+                    str(decoded[i])[:300], 'the {} bytes at {}..'.format(len(b), off), {'kind': 'bin2hex-decode'})
+    k = next((i for i, (b, off) in enumerate(pairs) if 0 < len(b) <= 40 and off % 0x10000 + len(b) > 0x10000), None)
+    if k is not None:
+        ctx.sample({'bin2hex': {'offset': pairs[k][1], 'bytes': pairs[k][0].hex()}, 'text': real[k].decode('ascii').split()})
+
+
 def replay(ctx, rec):
+    if rec['input'].get('kind') == 'bin2hex':
+        return replay_writer(rec)
     asm = harness.real_asm()
     case = ce.Case.from_json(rec['input']['case'])
     runs = ce.run_all(asm, [case])
@@ -104,3 +152,14 @@ def replay(ctx, rec):
     if r['rc'] == 0 and case.opts['hex'] and r['after']['hex'] is not None:
         hexdec = fe.spec_hex_decode([r['after']['hex']])[0]
     return bool(ce.evaluate(r, hexdec))
+
+
+def replay_writer(rec):
+    off, b = rec['input']['offset'], rec['input']['bytes']
+    if b.endswith('..'):
+        return True                      # a long input is not stored in full: cannot be re-run, keep it reported
+    b = bytes.fromhex(b)
+    real = hw.real_bin2hex([(b, off)])[0]
+    if not isinstance(real, bytes):
+        return True
+    return fe.spec_hex_decode([real])[0] != hw.expected_placement(b, off)
